@@ -340,6 +340,42 @@ def _rename_map(base_lines, cur_lines):
     if any(x.text in m and y.text != m[x.text] for x, y in zip(a, b)) or any(v in used for v in m.values()): return None
     return m
 
+def _partial_rename_map(base_lines, cur_lines):
+    """Renamed local binders in an item that was ALSO edited elsewhere: names that disappeared from the item altogether, each replaced
+    -- on lines that are otherwise token-identical -- by one name that is new to the item.  Same safety conditions as _rename_map (local
+    binders only, injective, new names unused).  Returns {old: new} or None."""
+    try:
+        a = rustsrc.lex('\n'.join(base_lines)); b = rustsrc.lex('\n'.join(cur_lines))
+    except Exception:
+        return None
+    ida = {t.text for t in a if t.kind == 'ident'}; idb = {t.text for t in b if t.kind == 'ident'}
+    gone, fresh = ida - idb, idb - ida
+    if not gone or not fresh: return None
+    m = {}
+    sm = difflib.SequenceMatcher(a=[norm(l) for l in base_lines], b=[norm(l) for l in cur_lines], autojunk=False)
+    for tag, i1, i2, j1, j2 in sm.get_opcodes():
+        if tag != 'replace' or i2 - i1 != j2 - j1: continue
+        for k in range(i2 - i1):
+            try:
+                x = rustsrc.lex(base_lines[i1 + k]); y = rustsrc.lex(cur_lines[j1 + k])
+            except Exception:
+                continue
+            if len(x) != len(y) or any(p.kind != q.kind for p, q in zip(x, y)): continue
+            if any(p.text != q.text and not (p.kind == 'ident' and p.text in gone and q.text in fresh) for p, q in zip(x, y)): continue
+            for p, q in zip(x, y):
+                if p.text != q.text and m.setdefault(p.text, q.text) != q.text: return None
+    if not m or len(set(m.values())) != len(m): return None
+    for name in m:
+        occ = [i for i, t in enumerate(a) if t.kind == 'ident' and t.text == name]
+        for i in occ:
+            prev = a[i - 1].text if i > 0 else ''; nxt = a[i + 1].text if i + 1 < len(a) else ''
+            if prev in ('.', '::') or nxt in ('(', '!', '::', '{', '<'): return None
+        if name[:1].isupper() or m[name][:1].isupper(): return None
+        i = occ[0]; prev = a[i - 1].text if i > 0 else ''; nxt = a[i + 1].text if i + 1 < len(a) else ''
+        binder = prev in ('let', 'mut', 'for', 'ref') or (prev in ('|', '(', ',', '&') and nxt in (':', ',', ')', '|'))
+        if not binder: return None
+    return m
+
 def _apply_rename(text, m):
     try:
         toks = rustsrc.lex(text, keep_comments=True)
@@ -376,6 +412,14 @@ def weave_item(repo, spec: ItemSpec, cache, log, unit_re=()):
             for no, t in ch: out.append((('ann', no), _apply_rename(t, ren)))
             if l is not None: out.append((('code*', spec.path), l))
         return out, info
+    pren = _partial_rename_map(base, cur)
+    if pren:
+        # local binders renamed in an item that was also edited elsewhere: the template (code lines and ghost chunks) follows the
+        # renaming first, the remaining difference is then handled by the line diff below
+        info['changed'].append({'op': 'rename', 'baseline': sorted(pren), 'current': [pren[k] for k in sorted(pren)]})
+        segs = [([(no, _apply_rename(t, pren)) for no, t in ch], (None if c is None else (c[0], _apply_rename(c[1], pren)) + tuple(c[2:]))) for ch, c in segs]
+        base = [c[1] for _, c in segs if c is not None]
+        bn = [norm(l) for l in base]
     sm = difflib.SequenceMatcher(a=bn, b=cn, autojunk=False)
     ops = _slide(sm.get_opcodes(), bn, cn)
     # a block of whole lines that was only MOVED (deleted here, inserted unchanged elsewhere in the same item) takes its ghost chunks
